@@ -1296,7 +1296,7 @@ def nullleak(run, fx):
         run.held('OWNFIELD', inst, '', '%d stores of fresh allocations into fields; none is nulled on a path that has not released it' % n)
 
 
-def opscopy_exec(run, fx):
+def opscopy_exec(run, fx, rule='TABLETS'):
     """TABLETS: a table is handed back through the `release_table` the application supplied.  Face::Face keeps a copy of the caller's
     gr_face_ops, whose first member is the size of the CALLER's layout (an older client passes a shorter structure, a newer one a
     longer one).  The constructor is interpreted (rules/ordint.py; memset / memcpy as prefix operations over the members in declaration
@@ -1308,13 +1308,13 @@ def opscopy_exec(run, fx):
     ctors = [f for f in fx.fns_named('graphite2::Face::Face') if not f.f.get('implicit') and len(f.f.get('params') or []) == 2]
     inst = 'Face::Face keeps the caller\'s release_table whatever the caller\'s structure size (interpreted)'
     if len(ctors) != 1:
-        run.broken('TABLETS', inst, 'Face::Face(appFaceHandle, ops) not found')
+        run.broken(rule, inst, 'Face::Face(appFaceHandle, ops) not found')
         return
     fn = ctors[0]
     frec = fx.record('graphite2::Face')
     orec = fx.raw['records'].get('gr_face_ops')
     if orec is None or [f['n'] for f in orec['fields']] != ['size', 'get_table', 'release_table']:
-        run.broken('TABLETS', inst, 'gr_face_ops is not {size, get_table, release_table} any more: re-derive the prefix-copy model', fn.where())
+        run.broken(rule, inst, 'gr_face_ops is not {size, get_table, release_table} any more: re-derive the prefix-copy model', fn.where())
         return
     names = [orec['q'] + '::' + f['n'] for f in orec['fields']]
     cases = 0
@@ -1363,17 +1363,18 @@ def opscopy_exec(run, fx):
                 want = (GET, REL)[k - 1] if size >= 8 * (k + 1) else None
                 g_ = got.rec if isinstance(got, O.Ptr) else got
                 if g_ is not want:
-                    run.violated('TABLETS', inst, fn.where(), 'a caller whose gr_face_ops is %d bytes long (size member): afterwards Face::m_ops.%s is %s, expected %s -- %s' %
+                    run.violated(rule, inst, fn.where(), 'a caller whose gr_face_ops is %d bytes long (size member): afterwards Face::m_ops.%s is %s, expected %s -- %s' %
                                  (size, nm, 'null' if g_ is None else 'the caller\'s' if g_ in (GET, REL) else repr(g_), 'the caller\'s' if want is not None else 'null',
-                                  'every table the face borrows is never handed back to the application' if nm == 'release_table' else 'the face cannot load a table'))
+                                  'the library reads a member that lies behind the structure the caller passed (foreign bytes become a function pointer that Face::Table::release later calls)' if want is None and g_ is not None
+                                  else 'every table the face borrows is never handed back to the application' if nm == 'release_table' else 'the face cannot load a table'))
                     return
     except O.Violation as v:
-        run.violated('TABLETS', inst, fn.where(), '%s (%s)' % (v.what, v.loc))
+        run.violated(rule, inst, fn.where(), '%s (%s)' % (v.what, v.loc))
         return
     except AnalysisBroken as ex:
-        run.broken('TABLETS', inst, str(ex), fn.where())
+        run.broken(rule, inst, str(ex), fn.where())
         return
-    run.held('TABLETS', inst, fn.where(), '%d caller layouts' % cases)
+    run.held(rule, inst, fn.where(), '%d caller layouts' % cases)
 
 
 def run(run):
